@@ -273,7 +273,8 @@ def run_case(case, ctx, st):
     y = None
     coded = False
     if pre is not None:
-        y = gen.coded_affinity(n)
+        # half of the coded matrices identify ordered pairs (row id, column id): the block must keep rows as rows
+        y = gen.coded_affinity(n, ordered=bool(rng.random() < 0.5))
         coded = True
         ctx.count("coded_affinity_fits")
     est = gen.build_estimator(name, params)
